@@ -13,6 +13,7 @@ import (
 	"go/token"
 	"os"
 	"path/filepath"
+	"sort"
 	"strconv"
 	"strings"
 
@@ -37,6 +38,9 @@ type c15Access struct {
 }
 
 type c15Walker struct {
+	mutex    string          // name of the mutex field of the receiver
+	fields   map[string]bool // receiver fields whose accesses are recorded
+	calls    map[string]bool // method names whose call sites are recorded (as field "call:<name>[:<last arg>]")
 	recv     string
 	fn       string
 	held     byte
@@ -66,7 +70,7 @@ func (w *c15Walker) lockCall(e ast.Expr) string {
 		return ""
 	}
 	m, ok := s.X.(*ast.SelectorExpr)
-	if !ok || m.Sel.Name != c15Mutex {
+	if !ok || m.Sel.Name != w.mutex {
 		return ""
 	}
 	if id, ok := m.X.(*ast.Ident); !ok || id.Name != w.recv {
@@ -81,7 +85,7 @@ func (w *c15Walker) lockCall(e ast.Expr) string {
 
 func (w *c15Walker) mapSel(e ast.Expr) string {
 	s, ok := e.(*ast.SelectorExpr)
-	if !ok || !c15Maps[s.Sel.Name] {
+	if !ok || !w.fields[s.Sel.Name] {
 		return ""
 	}
 	if id, ok := s.X.(*ast.Ident); !ok || id.Name != w.recv {
@@ -178,6 +182,21 @@ func (w *c15Walker) scan(n ast.Node, inClosure bool) {
 			if fl, ok := y.(*ast.FuncLit); ok && y != x {
 				visit(fl.Body, true)
 				return false
+			}
+			if c, ok := y.(*ast.CallExpr); ok {
+				if cs, ok := c.Fun.(*ast.SelectorExpr); ok && w.calls[cs.Sel.Name] {
+					name := "call:" + cs.Sel.Name
+					if n := len(c.Args); n > 0 {
+						if id, ok := c.Args[n-1].(*ast.Ident); ok && (id.Name == "true" || id.Name == "false") {
+							name += ":" + id.Name
+						}
+					}
+					if closure {
+						w.acc = append(w.acc, c15Access{w.fn, name, false, 0, -1})
+					} else {
+						w.record(name, false)
+					}
+				}
 			}
 			if s, ok := y.(*ast.SelectorExpr); ok {
 				if f := w.mapSel(s); f != "" {
@@ -390,7 +409,10 @@ func statsFacts() map[string]any {
 		"c15_routes":                      "?",
 		"c15_clear_param":                 "?",
 		"c15_auth_header":                 "?",
+		"c15_auth_one_region":             0,
+		"c15_logonline_sites":             "?",
 	}
+	serverFacts(out)
 	path := filepath.Join(c15RepoRoot(), "extras", "trafficlogger", "http.go")
 	fset := token.NewFileSet()
 	f, err := parser.ParseFile(fset, path, nil, 0)
@@ -415,7 +437,7 @@ func statsFacts() map[string]any {
 		if len(fd.Recv.List[0].Names) == 1 {
 			recv = fd.Recv.List[0].Names[0].Name
 		}
-		w := &c15Walker{recv: recv, fn: fd.Name.Name}
+		w := &c15Walker{mutex: c15Mutex, fields: c15Maps, recv: recv, fn: fd.Name.Name}
 		w.block(fd.Body)
 		walkers[fd.Name.Name] = w
 		decls[fd.Name.Name] = fd
@@ -573,4 +595,94 @@ func eqOperand(e ast.Expr, field string) string {
 		}
 	}
 	return ""
+}
+
+// ---------------------------------------------------------------- core/server/server.go
+//
+// The model's step `authReq` (Hy.Stats.Server.connStep) is atomic: "is this connection already
+// authenticated?", the authenticator's verdict, setting authenticated/authID and sending
+// LogOnlineState(id, true) happen with nobody else in between.  In the code that is the
+// authMutex region of h3sHandler.ServeHTTP; the fact below says all four sit in ONE
+// Lock()…Unlock() region (so two auth requests in flight on one connection cannot both find
+// authenticated == false).  c15_logonline_sites lists every LogOnlineState call site of the
+// package: the model has exactly these two.
+func serverFacts(out map[string]any) {
+	dir := filepath.Join(c15RepoRoot(), "core", "server")
+	fset := token.NewFileSet()
+	entries, err := os.ReadDir(dir)
+	if err != nil {
+		return
+	}
+	var sites []string
+	parsed := false
+	for _, e := range entries {
+		n := e.Name()
+		if e.IsDir() || !strings.HasSuffix(n, ".go") || strings.HasSuffix(n, "_test.go") || strings.HasPrefix(n, "zz_verif") {
+			continue
+		}
+		f, err := parser.ParseFile(fset, filepath.Join(dir, n), nil, 0)
+		if err != nil {
+			return
+		}
+		parsed = true
+		for _, d := range f.Decls {
+			fd, ok := d.(*ast.FuncDecl)
+			if !ok || fd.Body == nil {
+				continue
+			}
+			// every LogOnlineState call site, wherever it is
+			ast.Inspect(fd.Body, func(x ast.Node) bool {
+				if c, ok := x.(*ast.CallExpr); ok {
+					if s, ok := c.Fun.(*ast.SelectorExpr); ok && s.Sel.Name == "LogOnlineState" && len(c.Args) == 2 {
+						arg := "?"
+						if id, ok := c.Args[1].(*ast.Ident); ok {
+							arg = id.Name
+						}
+						sites = append(sites, fd.Name.Name+":"+arg)
+					}
+				}
+				return true
+			})
+			if fd.Name.Name != "ServeHTTP" || fd.Recv == nil || len(fd.Recv.List) != 1 {
+				continue
+			}
+			st, ok := fd.Recv.List[0].Type.(*ast.StarExpr)
+			if !ok {
+				continue
+			}
+			if id, ok := st.X.(*ast.Ident); !ok || id.Name != "h3sHandler" || len(fd.Recv.List[0].Names) != 1 {
+				continue
+			}
+			w := &c15Walker{mutex: "authMutex", fields: map[string]bool{"authenticated": true, "authID": true},
+				calls: map[string]bool{"Authenticate": true, "LogOnlineState": true},
+				recv:  fd.Recv.List[0].Names[0].Name, fn: "ServeHTTP"}
+			w.block(fd.Body)
+			region, ok1 := -2, true
+			var nRead, nWrite, nAuth, nOnline int
+			for _, a := range w.acc {
+				switch {
+				case a.field == "authenticated" && !a.write:
+					nRead++
+				case a.field == "authenticated" && a.write:
+					nWrite++
+				case a.field == "authID":
+				case a.field == "call:Authenticate":
+					nAuth++
+				case a.field == "call:LogOnlineState:true":
+					nOnline++
+				default:
+					ok1 = false // e.g. LogOnlineState(…, false) or a non-literal argument inside ServeHTTP
+				}
+				if a.held != 'W' || (region != -2 && a.region != region) {
+					ok1 = false
+				}
+				region = a.region
+			}
+			out["c15_auth_one_region"] = b2i(ok1 && nRead >= 1 && nWrite == 1 && nAuth == 1 && nOnline == 1)
+		}
+	}
+	if parsed {
+		sort.Strings(sites)
+		out["c15_logonline_sites"] = strings.Join(sites, ";")
+	}
 }
